@@ -657,12 +657,16 @@ func (b *BinaryExpression) Type() *Type {
 func (b *BinaryExpression) infer() {
 	if b.T == EMPTY_ARRAY {
 		b.T = &Type{Name: ARRAY, Sub: ANY_TYPE, Fixed: true}
+	} else if hasUntypedEmpty(b.T) { // nested, e.g. [[]] + [[]]
+		b.T = fixedType(b.T.infer())
 	}
 }
 
 func (s *SliceExpression) infer() {
 	if s.T == EMPTY_ARRAY {
 		s.T = &Type{Name: ARRAY, Sub: ANY_TYPE, Fixed: true}
+	} else if hasUntypedEmpty(s.T) { // nested, e.g. [[]][:]
+		s.T = fixedType(s.T.infer())
 	}
 }
 
@@ -676,6 +680,12 @@ type IndexExpression struct {
 	token *lexer.Token // The [ token
 	Left  Node
 	Index Node
+}
+
+func (i *IndexExpression) infer() {
+	if hasUntypedEmpty(i.T) { // e.g. [[]][0]
+		i.T = fixedType(i.T.infer())
+	}
 }
 
 // String returns a string representation of the IndexExpression node.
@@ -745,6 +755,12 @@ type DotExpression struct {
 	Key   string // m := { age: 42}; m.age => key: "age"
 }
 
+func (d *DotExpression) infer() {
+	if hasUntypedEmpty(d.T) { // e.g. {a:[]}.a
+		d.T = fixedType(d.T.infer())
+	}
+}
+
 // String returns a string representation of the DotExpression node.
 func (d *DotExpression) String() string {
 	return "(" + d.Left.String() + "." + d.Key + ")"
@@ -790,7 +806,7 @@ func (d *GroupExpression) Type() *Type {
 }
 
 func (d *GroupExpression) infer() {
-	if inf, ok := d.Expr.(inferrer); ok && d.Type() == EMPTY_ARRAY {
+	if inf, ok := d.Expr.(inferrer); ok && hasUntypedEmpty(d.Type()) {
 		inf.infer()
 	}
 }
